@@ -15,7 +15,7 @@ func Decode(doc Doc, out interface{}) error {
 func DecodeList(list List, out interface{}) error {
 	// get out value
 	outValue := reflect.ValueOf(out)
-	if outValue.Kind() != reflect.Ptr {
+	if outValue.Kind() != reflect.Ptr || outValue.Elem().Kind() != reflect.Slice {
 		return fmt.Errorf("results argument must be a pointer to a slice")
 	}
 
